@@ -17,7 +17,7 @@ vars == <<ex, depth, lane, parent, prop>>
 Key(l, d, salt) == (l * 7919 + d * 104729 + Seed * 15485 + salt * 611953) % 1000003
 PickDet(set, key) == LET q == SetToSeq(set) IN q[(key % Len(q)) + 1]
 
-CatsOf(p) == CASE p = "C02" -> {1} [] p = "C10" -> {1, 2, 3} [] p = "C06" -> {4} [] p = "C05" -> {5, 14}
+CatsOf(p) == CASE p = "C02" -> {1} [] p = "C10" -> {1, 2, 3, 14} [] p = "C06" -> {4} [] p = "C05" -> {5, 14}
                [] p \in {"C08", "C09"} -> {6, 7}
                [] p = "C07" -> {2, 3, 5, 6, 7, 9, 10, 12} [] p = "C14" -> {8, 9} [] p = "C13" -> {10, 11} [] p = "C12" -> {12, 13}
                [] OTHER -> 1..NCat         \* C07 and anything else: all categories
